@@ -749,6 +749,8 @@ def replay_replacement(sql, dn, C, field):
 
 # ------------------------------------------------------------------------------------------ main
 def check(rep, tier):
+    from vlib import statecensus
+    statecensus.obligations(rep, 'C13', 'planner')
     rep.dropped = 'function body read with ast.parse from $REPO_ROOT/mindsdb_sql/planner/utils.py; docstring and comments dropped'
     rep.assume('structural induction: the recursive call satisfies the contract on the (structurally smaller) child',
                'slot discovery: a child slot that no grammar production (and no test statement) ever fills is not in the spec',
